@@ -230,11 +230,12 @@ theorem rmSegTets_spec {φ : Int → Int → Int → G} (hφ : Alt φ) (g : Grid
       (∀ cell ∈ new, (∃ t, g.tets.get? cell = some t)) ∧
       (∀ cell ∈ new, ∃ p ∈ cells, (p.1 : Int) = cell) ∧
       rowsSum φ c'.faces.rows = rowsSum φ c.faces.rows + (new.map fun cell => faceSum φ (keptFaces g skip cell)).sum ∧
-      (∀ x ∈ c'.validFaces, x ∈ c.validFaces ∨ ∃ cell ∈ new, x ∈ keptFaces g skip cell) := by
+      (∀ x ∈ c'.validFaces, x ∈ c.validFaces ∨ ∃ cell ∈ new, x ∈ keptFaces g skip cell) ∧
+      new.Nodup ∧ (∀ cell ∈ new, cell ∉ c.tetList) := by
   induction cells generalizing c with
   | nil =>
     simp only [rmSegTets, Prod.mk.injEq, true_and] at h; subst h
-    exact ⟨hinv, rfl, rfl, rfl, rfl, hs, [], by simp, by simp, by simp, by simp, fun x hx => Or.inl hx⟩
+    exact ⟨hinv, rfl, rfl, rfl, rfl, hs, [], by simp, by simp, by simp, by simp, fun x hx => Or.inl hx, by simp, by simp⟩
   | cons p rest ih =>
     obtain ⟨cell, tet⟩ := p
     have hrest : ∀ p ∈ rest, g.tets.get? (p.1 : Int) = some p.2 := fun p hp => hcells p (List.mem_cons_of_mem _ hp)
@@ -242,9 +243,9 @@ theorem rmSegTets_spec {φ : Int → Int → Int → G} (hφ : Alt φ) (g : Grid
     unfold rmSegTets at h
     split at h
     · -- already listed
-      obtain ⟨a1, a2, a3, a4, a5, a6, new, b1, b2, b3, b4, b5⟩ := ih hrest c hinv h
+      obtain ⟨a1, a2, a3, a4, a5, a6, new, b1, b2, b3, b4, b5, b6, b7⟩ := ih hrest c hinv h
       exact ⟨a1, a2, a3, a4, a5, a6, new, b1, b2,
-        fun x hx => (b3 x hx).elim fun p hp => ⟨p, List.mem_cons_of_mem _ hp.1, hp.2⟩, b4, b5⟩
+        fun x hx => (b3 x hx).elim fun p hp => ⟨p, List.mem_cons_of_mem _ hp.1, hp.2⟩, b4, b5, b6, b7⟩
     · next hnot =>
       simp only at h
       split at h
@@ -257,11 +258,21 @@ theorem rmSegTets_spec {φ : Int → Int → Int → G} (hφ : Alt φ) (g : Grid
         obtain ⟨hinv1, hsame1, hsum1, hmem1⟩ :=
           insertFaces_spec hφ _ { c with tetList := c.tetList ++ [(cell : Int)] } c1 hinv hins
         obtain ⟨s1, s2, s3, s4, s5, s6⟩ := hsame1
-        obtain ⟨a1, a2, a3, a4, a5, a6, new, b1, b2, b3, b4, b5⟩ := ih hrest c1 hinv1 h
+        obtain ⟨a1, a2, a3, a4, a5, a6, new, b1, b2, b3, b4, b5, b6, b7⟩ := ih hrest c1 hinv1 h
         have hk : keptFaces g skip (cell : Int) = (tetFaces tet).filter (rmSegKeep g skip) := by
           simp [keptFaces, hget]
+        have hcellnot : (cell : Int) ∉ c.tetList := fun hm => hnot (List.contains_iff_mem.mpr hm)
         refine ⟨a1, a2.trans s4, a3.trans s2, a4.trans s3, a5.trans s6, s1 ▸ a6, ?_⟩
-        refine ⟨(cell : Int) :: new, ?_, ?_, ?_, ?_, ?_⟩
+        refine ⟨(cell : Int) :: new, ?_, ?_, ?_, ?_, ?_, ?_, ?_⟩
+        rotate_left 5
+        · refine List.nodup_cons.mpr ⟨?_, b6⟩
+          intro hm
+          exact b7 _ hm (by rw [s5]; simp)
+        · intro x hx
+          rcases List.mem_cons.mp hx with rfl | hx
+          · exact hcellnot
+          · intro hm
+            exact b7 x hx (by rw [s5]; exact List.mem_append_left _ hm)
         · rw [b1, s5]; simp
         · intro x hx
           rcases List.mem_cons.mp hx with rfl | hx
@@ -293,7 +304,8 @@ theorem removeSegAddTets_spec {φ : Int → Int → Int → G} (hφ : Alt φ) (g
       (∀ cell ∈ new, (∃ t, g.tets.get? cell = some t)) ∧
       rowsSum φ c'.faces.rows =
         rowsSum φ c.faces.rows + (new.map fun cell => faceSum φ (keptFaces g (segSkip g s) cell)).sum ∧
-      (∀ x ∈ c'.validFaces, x ∈ c.validFaces ∨ ∃ cell ∈ new, x ∈ keptFaces g (segSkip g s) cell) := by
+      (∀ x ∈ c'.validFaces, x ∈ c.validFaces ∨ ∃ cell ∈ new, x ∈ keptFaces g (segSkip g s) cell) ∧
+      new.Nodup ∧ (∀ cell ∈ new, cell ∉ c.tetList) := by
   unfold removeSegAddTets at h
   rw [isEmpty_false_of_ne hact.1] at h
   simp only [Bool.false_eq_true, if_false, hact.2, ne_eq, not_true_eq_false] at h
@@ -303,9 +315,9 @@ theorem removeSegAddTets_spec {φ : Int → Int → Int → G} (hφ : Alt φ) (g
     · simp at h
     · have hcells : ∀ p ∈ g.tets.having2 Tet.nodes s.n0 s.n1, g.tets.get? (p.1 : Int) = some p.2 :=
         fun p hp => having2_get g.tets Tet.nodes s.n0 s.n1 p hp
-      obtain ⟨a1, a2, a3, a4, a5, _, new, b1, b2, _, b4, b5⟩ :=
+      obtain ⟨a1, a2, a3, a4, a5, _, new, b1, b2, _, b4, b5, b6, b7⟩ :=
         rmSegTets_spec hφ g (segSkip g s) _ hcells c c' hinv h hs
-      exact ⟨a1, a2, a3, a4, a5, new, b1, b2, b4, b5⟩
+      exact ⟨a1, a2, a3, a4, a5, new, b1, b2, b4, b5, b6, b7⟩
 
 theorem coneSum_perm (φ : Int → Int → Int → G) (n : Int) {l1 l2 : List Seg} (hp : l1.Perm l2) :
     coneSum φ n l1 = coneSum φ n l2 := (hp.map fun (s : Seg) => φ s.n0 s.n1 n).sum_eq
@@ -326,6 +338,8 @@ structure SegStep (φ : Int → Int → Int → G) (ψ : Int → Int → G) (g :
   tris : c'.triList = c.triList
   tets : c'.tetList = c.tetList ++ new
   live : ∀ cell ∈ new, ∃ t, g.tets.get? cell = some t
+  nodup : new.Nodup
+  fresh : ∀ cell ∈ new, cell ∉ c.tetList
   ledger : ledgerVal φ c' = ledgerVal φ c + (new.map fun cell => faceSum φ (keptFaces g (segSkip g s) cell)).sum
   segs : segSum ψ c'.validSegs = segSum ψ c.validSegs + ψ s.n0 s.n1
   segMem : ∀ x ∈ c'.validSegs, x ∈ c.validSegs ∨ x = s
@@ -360,14 +374,15 @@ theorem insertSeg3_spec {φ : Int → Int → Int → G} {ψ : Int → Int → G
       obtain ⟨f1, ⟨e1, e2, e3, e4, e5, e6⟩, fsum1, fmem1⟩ :=
         removeSegFace_spec hφ { c with segs := c.segs.remove i } c1 s hf hact0 h1
       have hact1 : SegFaceActive c1 := ⟨by rw [e5]; exact hact.1, by rw [e1]; exact hact.2⟩
-      obtain ⟨f2, d2, d3, d4, d5, new, t1, t2, fsum2, fmem2⟩ := removeSegAddTets_spec hφ g c1 c' s f1 hact1 h hs'
+      obtain ⟨f2, d2, d3, d4, d5, new, t1, t2, fsum2, fmem2, nd2, fr2⟩ :=
+        removeSegAddTets_spec hφ g c1 c' s f1 hact1 h hs'
       obtain ⟨hi, hp, hb⟩ := Slots.remove_spec c.segs i old hsg hold
       obtain ⟨hb0, ha0⟩ := hr rfl
       have hn : c'.segNode = c.segNode := segNode_eq (d3.trans e2) (d4.trans e3)
       have hsegs : c'.validSegs = (c.segs.remove i).valid := by
         simp only [Cav.validSegs, d2, e4]
-      refine ⟨new, ⟨f2, by rw [d2, e4]; exact hi, d3.trans e2, d4.trans e3, d5.trans e6, by rw [t1, e5], t2, ?_, ?_, ?_,
-        ?_⟩⟩
+      refine ⟨new, ⟨f2, by rw [d2, e4]; exact hi, d3.trans e2, d4.trans e3, d5.trans e6, by rw [t1, e5], t2, nd2,
+        (by intro cell hc; have := fr2 cell hc; rw [e5] at this; exact this), ?_, ?_, ?_, ?_⟩⟩
       · simp only [ledgerVal, hn, hsegs]
         rw [fsum2, fsum1]
         have hc := coneSum_perm φ c.segNode hp
@@ -396,7 +411,7 @@ theorem insertSeg3_spec {φ : Int → Int → Int → G} {ψ : Int → Int → G
     obtain ⟨hi, hp, _, _⟩ := Slots.add_spec c.segs 100 (by decide) s hsg
     have hn : c'.segNode = c.segNode := segNode_eq e2 e3
     have hsegs : c'.validSegs = (c.segs.add 100 s).1.valid := by simp only [Cav.validSegs, e4]
-    refine ⟨[], ⟨f1, by rw [e4]; exact hi, e2, e3, e6, by rw [e5]; simp, by simp, ?_, ?_, ?_, ?_⟩⟩
+    refine ⟨[], ⟨f1, by rw [e4]; exact hi, e2, e3, e6, by rw [e5]; simp, by simp, by simp, by simp, ?_, ?_, ?_, ?_⟩⟩
     · simp only [ledgerVal, hn, hsegs, List.map_nil, List.sum_nil, add_zero]
       rw [fsum1]
       have hc := coneSum_perm φ c.segNode hp
